@@ -25,9 +25,9 @@ RULE = ("case = (scenario variant, injector kind); inside: every abort index; a 
         "monitor_counters: runs per injector, events and deliveries checked")
 ASSUMPTIONS = ["abort = OptimizationAborted(USER_ABORT) raised by user code (observer, handler or evaluator), as BasicOptimizer.set_abort_callback does"]
 REQUIRED = {"quick": {"abort_runs.observer": 400, "abort_runs.handler": 400, "abort_runs.evaluator": 150, "events_checked": 15000, "deliveries_checked": 60000,
-                      "streams_checked": 2000, "latch_checked": 900, "later_steps_refused": 300, "nested_abort_runs": 200, "three_level_abort_runs": 600, "basic_optimizer_abort_runs": 24, "__nontrivial__": 900},
+                      "streams_checked": 2000, "latch_checked": 900, "later_steps_refused": 300, "nested_abort_runs": 200, "three_level_abort_runs": 600, "plan_functions_refused_after_abort": 900, "basic_optimizer_abort_runs": 24, "__nontrivial__": 900},
             "thorough": {"abort_runs.observer": 5000, "abort_runs.handler": 5000, "abort_runs.evaluator": 2000, "events_checked": 200000, "deliveries_checked": 1000000,
-                         "streams_checked": 25000, "latch_checked": 12000, "later_steps_refused": 6000, "nested_abort_runs": 4000, "three_level_abort_runs": 7000, "basic_optimizer_abort_runs": 200, "__nontrivial__": 12000}}
+                         "streams_checked": 25000, "latch_checked": 12000, "later_steps_refused": 6000, "nested_abort_runs": 4000, "three_level_abort_runs": 7000, "plan_functions_refused_after_abort": 10000, "basic_optimizer_abort_runs": 200, "__nontrivial__": 12000}}
 N = {"quick": 48, "thorough": 600}
 SCENARIOS = ["optimizer", "evaluator", "sequential", "nested", "nested3"]
 
@@ -359,6 +359,26 @@ def check_run(obs, world, outcomes, plans, step_plan, observers, steps, tag, inj
                 if not plans[name]["plan"].aborted:
                     obs.violation("plan_on_the_abort_path_not_marked_aborted", plan=name, raised_at=raised_type, **tag)
                     return False
+                name = plans[name]["parent"]
+            # a plan on the abort path that runs its steps through its function refuses that as well, and emits nothing
+            from ropt.exceptions import PlanAborted  # noqa: PLC0415
+
+            name = step_plan.get(aborted_step) if aborted_step is not None else None
+            while name is not None:
+                pl = plans[name]["plan"]
+                if pl.has_function():
+                    n_before = len(world.events)
+                    try:
+                        pl.run_function(np.zeros(3 if "middle" in plans else 2))
+                        refused = False
+                    except PlanAborted:
+                        refused = True
+                    except Exception as exc:  # noqa: BLE001
+                        refused = repr(exc)
+                    obs.count("plan_functions_refused_after_abort")
+                    if refused is not True or len(world.events) != n_before:
+                        obs.violation("plan_function_ran_after_abort", plan=name, outcome=refused, new_events=len(world.events) - n_before, raised_at=raised_type, **tag)
+                        return False
                 name = plans[name]["parent"]
             for later in outcomes[idx + 1:]:
                 obs.count("later_steps_refused")
